@@ -16,6 +16,9 @@ REJECTED = [
     ("lexical-number", "res / on get -> <{ 'p 99999999999999999999999 }>;\n"),
     ("syntax", "let a = ;\nres / on get -> <>;\n"),
     ("syntax-trailing", "res / on get -> <>;\n}\n"),
+    ("syntax-trailing-at-end-of-text", "res / on get -> {}; }"),
+    ("lexical-at-end-of-text", "res / on get -> {};\n$"),
+    ("scope-at-end-of-text", "res / on get -> <nosuch>"),
     ("not-in-scope", "res / on get -> <nosuch>;\n"),
     ("duplicate", "let a = num;\nlet a = str;\nres / on get -> <a>;\n"),
     ("type", "res / on get -> <{ 5XX }>;\n"),
